@@ -582,10 +582,13 @@ def model_agreement(lab, s, results):
 
 
 def run(ctx):
+    global SUCCESS_LINES
     ctx.stage_xlate(required_assertions=ASSERTIONS)
     ctx.stage_prove(THEOREMS)
     if not ctx.stage_build():
         return
+    # the wording of the success lines is the source's (regenerated fact), not a literal of this file
+    SUCCESS_LINES = tuple(ctx.facts.get("savecmds.successLines") or SUCCESS_LINES)
     # in-process: WriteFileAtomic / history.Save under a write cut, against the model's planned-fault run
     ctx.correspond("atomicwrite", 150 if ctx.tier == "quick" else 3000, nontrivial=nontrivial)
     with core.BuildLock():
